@@ -116,6 +116,7 @@ struct Engine {
   double quick_cap_s = 60; // wall-clock safety caps (budgets are in runs)
   double thorough_cap_s = 900;
   unsigned max_workers = 16;
+  unsigned watchdog_s = 30; // wall-clock limit for 32 consecutive runs of a worker (hang detection)
   const char* rule = "";
   std::vector<std::string> assumptions;
   // component -> "real" / "stub: ..." description, emitted into evidence
